@@ -232,9 +232,11 @@ func init() {
 				errs[ix] = fmt.Errorf("case %d: configuration rejected: %v\n%s", ix+1, err, cfgText)
 				return
 			}
-			mstr := map[string]int{}
+			// marker check String() -> the blocks that define it (several blocks may carry the identical marker: what is
+			// observable is the check, so its problem is recorded for each of them)
+			mstr := map[string][]int{}
 			for b, blk := range c.Blocks {
-				mstr[markerString(blk.Marker)] = b
+				mstr[markerString(blk.Marker)] = append(mstr[markerString(blk.Marker)], b)
 			}
 			isMarker := func(s string) bool { _, ok := mstr[s]; return ok }
 			entries, e2c, err := parse()
@@ -258,7 +260,9 @@ func init() {
 					rows[b] = []byte(strings.Repeat("0", n))
 				}
 				for _, m := range ms {
-					rows[mstr[m.Check]][e2c[m.Entry]] = '1'
+					for _, b := range mstr[m.Check] {
+						rows[b][e2c[m.Entry]] = '1'
+					}
 				}
 				obs[k] = make([]string, len(rows))
 				for b := range rows {
@@ -321,23 +325,25 @@ func c09Binary(pint, corpusDir, tmp, cfgText string, tops []string, blocks []dBl
 		rows[b] = []byte(strings.Repeat("0", n))
 	}
 	for _, r := range reps {
-		b := -1
+		hit := []int{}
 		for bi, blk := range blocks {
 			switch {
 			case blk.Marker == "report" && r.Reporter == "rule/report":
-				b = bi
+				hit = append(hit, bi)
 			case blk.Marker != "report" && r.Reporter == "rule/name" && r.Details == "Rule comment: "+blk.Marker:
-				b = bi
+				hit = append(hit, bi)
 			}
 		}
-		if b < 0 || len(r.Lines) == 0 {
+		if len(hit) == 0 || len(r.Lines) == 0 {
 			continue
 		}
 		ci, ok := where[r.Path+":"+strconv.Itoa(r.Lines[0])]
 		if !ok {
 			return nil, fmt.Errorf("marker problem at %s:%v is not on the first line of a corpus rule", r.Path, r.Lines)
 		}
-		rows[b][ci] = '1'
+		for _, b := range hit {
+			rows[b][ci] = '1'
+		}
 	}
 	res := make([]string, len(rows))
 	for b := range rows {
